@@ -1134,6 +1134,10 @@ class Interp:
             if isinstance(v, VBool):
                 if v.f[0] == "c":
                     return VInt(Lin.const(1 if v.f[1] else 0))
+                if v.f[0] == "ge":
+                    xa = (v.f[1] + 1).single_atom()
+                    if xa is not None and ATOM_LO.get(xa) == 0 and ATOM_HI.get(xa) == 1:
+                        return VInt(Lin.atom(xa), prov=("bool", v.f))
                 a = reg_atom(("b2i", fresh_id()), 0, 1)
                 return VInt(Lin.atom(a), prov=("bool", v.f))
             if isinstance(v, VInt) and isinstance(t, str) and t in INT_TYPES:
@@ -1388,10 +1392,152 @@ class Interp:
             return []
         return fr.ret_k(st, rv)
 
+    def simple_block(self, body, bi):
+        """block made of plain local assignments ending in goto: returns goto target or None"""
+        cache = body.setdefault("_simple", {})
+        if bi in cache:
+            return cache[bi]
+        blk = body["blocks"][bi]
+        res = None
+        t = blk["term"]
+        if t["t"] == "goto" and bi not in cfg_info(body)["loops"]:
+            ok = True
+            for s in blk["stmts"]:
+                if s["s"] == "dead":
+                    continue
+                if s["s"] != "assign" or s["place"].get("p"):
+                    ok = False
+                    break
+                rv = s["rvalue"]
+                if rv["rv"] not in ("use", "bin", "un", "cast") or (rv["rv"] == "bin" and rv["op"].endswith("WithOverflow")):
+                    ok = False
+                    break
+                if rv["rv"] == "cast" and rv["kind"] != "IntToInt":
+                    ok = False
+                    break
+            if ok:
+                res = t["target"]
+        cache[bi] = res
+        return res
+
+    def cond_lin(self, st, f):
+        """a Lin that is 1 when f holds and 0 otherwise (may add linking facts)"""
+        if f[0] == "ge":
+            xa = (f[1] + 1).single_atom()
+            if xa is not None and ATOM_LO.get(xa) == 0 and ATOM_HI.get(xa) == 1:
+                return Lin.atom(xa)
+            nx = (-(f[1])).single_atom()
+            if nx is not None and ATOM_LO.get(nx) == 0 and ATOM_HI.get(nx) == 1:
+                return Lin.const(1) - Lin.atom(nx)
+        c = reg_atom(("b2i", fresh_id()), 0, 1)
+        pos = conj_of(f)
+        neg = conj_of(f_not(f))
+        if pos is not None and neg is not None:
+            st.disj.append([[Lin.atom(c) - 1] + list(pos), [Lin.atom(c).scale(-1)] + list(neg)])
+        return Lin.atom(c)
+
+    def try_if_convert(self, st, fr, t, v):
+        """`if c { x = a } else { x = b }` with tiny arms: run both arms and merge integer locals"""
+        if len(t["targets"]) != 1 or t["targets"][0][0] != 0 or v.f[0] in ("unk", "c"):
+            return None
+        body = fr.body
+        A = t["targets"][0][1]  # false arm
+        B = t["otherwise"]  # true arm
+        ja = self.simple_block(body, A)
+        jb = self.simple_block(body, B)
+        if ja is not None and jb is not None and ja == jb:
+            join, runA, runB = ja, True, True
+        elif jb is not None and jb == A:
+            join, runA, runB = A, False, True
+        elif ja is not None and ja == B:
+            join, runA, runB = B, True, False
+        else:
+            return None
+        if join in cfg_info(body)["loops"]:
+            return None
+        sf = st.fork()
+        stt = st.fork()
+        try:
+            sf.assume(f_not(v.f))
+            stt.assume(v.f)
+            if not self.feasible_after(sf, v.f) or not self.feasible_after(stt, v.f):
+                return None
+        except Infeasible:
+            return None
+        nobl = len(self.sink.obligs)
+        try:
+            for s2, run, bi in ((sf, runA, A), (stt, runB, B)):
+                if not run:
+                    continue
+                f2 = s2.frames[-1]
+                for si, s in enumerate(body["blocks"][bi]["stmts"]):
+                    self.cur_site = (bi, si)
+                    self.cur_sp = s.get("sp")
+                    self.cur_expn = s.get("ex")
+                    self.exec_stmt(s2, f2, s)
+        except Infeasible:
+            del self.sink.obligs[nobl:]
+            return None
+        la, lb = sf.frames[-1].locals, stt.frames[-1].locals
+        diffs = []
+        from .loops import same_value
+        for l in set(la) | set(lb):
+            x, y = la.get(l), lb.get(l)
+            if x is y:
+                continue
+            if x is None or y is None:
+                continue
+            if same_value(x, y):
+                continue
+            if isinstance(x, VInt) and isinstance(y, VInt):
+                diffs.append((l, x, y))
+            elif isinstance(x, VBool) and isinstance(y, VBool):
+                diffs.append((l, x, y))
+            else:
+                del self.sink.obligs[nobl:]
+                return None
+        if len(sf.facts) > len(st.facts) + 3 or len(stt.facts) > len(st.facts) + 3:
+            pass
+        merged = st
+        mf = merged.frames[-1]
+        c = None
+        for l, x, y in diffs:
+            if isinstance(x, VBool):
+                a = reg_atom(("v", ("phi", fresh_id())), 0, 1)
+                mf.locals[l] = VBool(("ge", Lin.atom(a) - 1))
+                continue
+            d = y.lin - x.lin
+            if d.is_const():
+                if c is None:
+                    c = self.cond_lin(merged, v.f)
+                mf.locals[l] = VInt(x.lin + c.scale(d.c), prov=("phi", v.f, x, y))
+            else:
+                xlo, xhi = static_bounds(x.lin)
+                ylo, yhi = static_bounds(y.lin)
+                lo = None if xlo is None or ylo is None else min(xlo, ylo)
+                hi = None if xhi is None or yhi is None else max(xhi, yhi)
+                mf.locals[l] = VInt(Lin.atom(reg_atom(("v", ("phi", fresh_id())), lo, hi)), prov=("phi", v.f, x, y))
+        # locals assigned in only one arm keep the value of that arm when identical; others stay
+        for l in set(la) | set(lb):
+            if l not in mf.locals:
+                x, y = la.get(l), lb.get(l)
+                if x is not None and y is not None and same_value(x, y):
+                    mf.locals[l] = x
+        for l in la:
+            if l in lb and l in mf.locals and not any(l == d[0] for d in diffs):
+                if same_value(la[l], lb[l]):
+                    mf.locals[l] = la[l]
+        mf.block = join
+        return [merged]
+
     def exec_switch(self, st, fr, t):
         v = self.eval_operand(st, fr, t["discr"])
         targets = t["targets"]
         out = []
+        if isinstance(v, VBool) and self.opts.get("if_convert", True):
+            r = self.try_if_convert(st, fr, t, v)
+            if r is not None:
+                return r
         if isinstance(v, VBool):
             f = v.f
             for val, bb in targets:
